@@ -8,6 +8,7 @@ structure St where
 def step (s : St) (line : String) : St × String :=
   match words line with
   | "timer" :: ws => let (t, o) := timerStep s.timer ws; ({ s with timer := t }, o)
+  | ["reset"] => ({}, "reset")
   | "k" :: ws => (s, kernStep ws)
   | _ => (s, "bad-op")
 
